@@ -22,7 +22,7 @@ import (
 	"verif/harness/internal/ev"
 )
 
-const c24Rule = "byte streams of 1..4 pipelined requests from a request grammar with smuggling-style header generators (Content-Length forms: +n, -0, empty, leading zeros, lists, duplicates equal/conflicting, non-RFC whitespace; Transfer-Encoding forms: case, identity before/after chunked, gzip, xchunked, repeated field lines, params, \\v/\\f padding; CL+TE combinations with bodies valid under either reading; field-name forms: whitespace before colon, NUL/CTL/space/high bytes, empty name, no colon; first-line whitespace, obs-fold, bare LF, leading empty lines, lines longer than the 4096-byte buffer, CTLs in values), TCP-like segmentation, optional random byte edit; plus seed constants. non-trivial: the stream contains a Content-Length or Transfer-Encoding field (any spelling); distinct by stream bytes"
+const c24Rule = "(connection level, ~2% of cases + 12 fixed streams: 2..5 well-formed pipelined requests sent to an in-process BFE whose BeforeLocation filter answers 200 with or without reading the body, bodies CL/chunked with embedded request look-alikes, optional Expect: 100-continue; the requests served must be a prefix of the reference parse) byte streams of 1..4 pipelined requests from a request grammar with smuggling-style header generators (Content-Length forms: +n, -0, empty, leading zeros, lists, duplicates equal/conflicting, non-RFC whitespace; Transfer-Encoding forms: case, identity before/after chunked, gzip, xchunked, repeated field lines, params, \\v/\\f padding; CL+TE combinations with bodies valid under either reading; chunk sizes with 16 / 17+ / overflowing hex digits and chunk extensions; field-name forms: whitespace before colon, NUL/CTL/space/high bytes, empty name, no colon; first-line whitespace, obs-fold, bare LF, leading empty lines, lines longer than the 4096-byte buffer, CTLs in values), TCP-like segmentation, optional random byte edit; plus seed constants. non-trivial: the stream contains a Content-Length or Transfer-Encoding field (any spelling); distinct by stream bytes"
 
 const c24MaxReqs = 8
 
@@ -399,10 +399,10 @@ func (g *c24Gen) chunkedEnc(p []byte) []byte {
 	rest := p
 	for len(rest) > 0 {
 		n := g.intn("chunklen", 1, len(rest))
-		fmt.Fprintf(&b, "%x\r\n%s\r\n", n, rest[:n])
+		fmt.Fprintf(&b, "%s\r\n%s\r\n", g.chunkSize(n), rest[:n])
 		rest = rest[n:]
 	}
-	b.WriteString("0\r\n")
+	b.WriteString(g.chunkSize(0) + "\r\n")
 	if g.chance("trailer", 8) {
 		g.feat("body:trailer")
 		if g.chance("trailer-ws", 5) {
@@ -413,6 +413,33 @@ func (g *c24Gen) chunkedEnc(p []byte) []byte {
 	}
 	b.WriteString("\r\n")
 	return b.Bytes()
+}
+
+// chunkSize spells a chunk-size line: usually minimal hex, sometimes padded to
+// exactly 16 digits (valid), to 17+ digits or with digits that overflow 64 bits
+// (low 64 bits = n, so a wrapping parser sees a well-framed body), and
+// sometimes followed by a chunk extension.
+func (g *c24Gen) chunkSize(n int) string {
+	h := fmt.Sprintf("%x", n)
+	switch g.intn("sizeform", 0, 23) {
+	case 20:
+		g.feat("body:size-16-digits")
+		h = strings.Repeat("0", 16-len(h)) + h
+	case 21:
+		g.feat("body:size-17plus-digits")
+		h = strings.Repeat("0", []int{17, 18, 24, 40}[g.intn("sizedigits", 0, 3)]-len(h)) + h
+	case 22:
+		g.feat("body:size-overflow")
+		h = g.pick("sizepre", "1", "f", "10", "deadbeef") + strings.Repeat("0", 16-len(h)) + h
+	case 23:
+		g.feat("body:size-upper")
+		h = strings.ToUpper(h)
+	}
+	if g.chance("chunk-ext", 8) {
+		g.feat("body:chunk-ext")
+		h += g.pick("chunkext", ";x", ";a=b", ";a=\"q\"", " ;x", ";")
+	}
+	return h
 }
 
 func (g *c24Gen) line(name, value string) string {
@@ -646,6 +673,10 @@ var c24Seeds = []string{
 	"GET / HTTP/1.1\r\nHost: h\r\n",
 	"GET / HTTP/1.1",
 	"GET /C HTTP/1.0\r\n  ",
+	"POST / HTTP/1.1\r\nHost: h\r\nTransfer-Encoding: chunked\r\n\r\n5;x\r\nhello\r\n0;y=z\r\n\r\nGET /next HTTP/1.1\r\nHost: n\r\n\r\n",
+	"POST / HTTP/1.1\r\nHost: h\r\nTransfer-Encoding: chunked\r\n\r\n10000000000000005;x\r\nhello\r\n0\r\n\r\nGET /smuggled HTTP/1.1\r\nHost: n\r\n\r\n",
+	"POST / HTTP/1.1\r\nHost: h\r\nTransfer-Encoding: chunked\r\n\r\n00000000000000005;x\r\nhello\r\n0\r\n\r\nGET /next HTTP/1.1\r\nHost: n\r\n\r\n",
+	"POST / HTTP/1.1\r\nHost: h\r\nTransfer-Encoding: chunked\r\n\r\n0000000000000005\r\nhello\r\n0000000000000000\r\n\r\nGET /next HTTP/1.1\r\nHost: n\r\n\r\n",
 	"",
 }
 
@@ -656,7 +687,17 @@ func TestC24(t *testing.T) {
 		c24CheckStream(t, rec, []byte(s), []int{1}, "seed", nil)
 		c24CheckStream(t, rec, []byte(s), []int{5, 3, 64}, "seed", nil)
 	}
+	for _, s := range c24ServerSeeds {
+		c24ServerCase(t, rec, []byte(s), []string{"server-seed"})
+	}
 	rapid.Check(t, func(rt *rapid.T) {
+		if uni(rt, "server?", 50) == 49 {
+			// connection level: the same framing question asked of bfe's serve loop
+			stream, feats := genServerStream(rt)
+			rec.Sample(map[string]any{"gen": "server", "features": feats, "stream": clip(stream, 300)})
+			c24ServerCase(rt, rec, stream, feats)
+			return
+		}
 		g := &c24Gen{rt: rt}
 		n := rapid.IntRange(1, 4).Draw(rt, "nreq")
 		var stream []byte
